@@ -223,6 +223,8 @@ func buildAF(class string, r *rng) *astits.PacketAdaptationField {
 				HasSeamlessSplice: true, SpliceType: uint8(r.intn(16)), DTSNextAccessUnit: &astits.ClockReference{Base: cr33(r)}}}
 	case "big":
 		return &astits.PacketAdaptationField{HasTransportPrivateData: true, TransportPrivateData: r.bytes(180), TransportPrivateDataLength: 180}
+	case "discpcr": // the unit announces a discontinuity (a new time base): whatever was written before it is delivered all the same
+		return &astits.PacketAdaptationField{DiscontinuityIndicator: true, HasPCR: true, PCR: pcr()}
 	case "stuffed": // as parsed from a PCR-only packet of another stream (what a re-multiplexer hands over): the stuffing is the muxer's to compute
 		return &astits.PacketAdaptationField{HasPCR: true, PCR: pcr(), StuffingLength: r.pick(176, 1, 20, 100)}
 	case "onebyte": // as parsed from a packet whose adaptation_field_length is 0
@@ -256,7 +258,7 @@ func afTotalLen(class string) int {
 		return 2 + 1 + 180
 	case "bigrai":
 		return 2 + 6 + 1 + 170
-	case "stuffed":
+	case "stuffed", "discpcr":
 		return 8
 	case "onebyte":
 		return 2
